@@ -65,15 +65,44 @@ def explore_order(job):
     return out
 
 
+def explore_chain(job):
+    from . import chain
+    t0 = time.time()
+    out = {'name': job['name'], 'family': job['family'], 'mode': job['mode'], 'nodes': job['nodes'], 'edges': job['edges']}
+    try:
+        fn = chain.run_reeval_instance if job['family'] == 'H-EVAL2' else chain.run_resume_instance
+        st, viols = fn(_MOD, [tuple(n) for n in job['nodes']], [tuple(e) for e in job['edges']], job['mode'], deadline=job.get('deadline'))
+        groups = {}
+        for v in viols:
+            gk = group_key(v['prop'], v['what'])
+            g = groups.setdefault(gk, {'prop': v['prop'], 'count': 0, 'examples': []})
+            g['count'] += 1
+            v['universe'] = job['name']
+            if len(g['examples']) < 2:
+                g['examples'].append(v)
+        ms = {k: st[k] for k in st if k in ('first_finals', 'second_explorations', 'interrupted_finals', 'uninterrupted_finals', 'pairs', 'pairs_solver')}
+        out.update({'ok': True, 'states': st['states'], 'transitions': st['transitions'], 'events': st['events'], 'forks': 0,
+                    'finals': st['finals'], 'capped': st['capped'], 'solver': st['solver'], 'by_eval': 0,
+                    'obligations': st['obligations'], 'discharged': st['discharged'], 'groups': groups, 'samples': [],
+                    'mir_blocks': rt.STEPS.total, 'wall': time.time() - t0, 'mon_stats': ms})
+    except rt.Unsupported as e:
+        out.update({'ok': False, 'error': 'unsupported: %s' % str(e)[:300], 'trace': traceback.format_exc()[-1500:]})
+    except Exception as e:
+        out.update({'ok': False, 'error': '%s: %s' % (type(e).__name__, str(e)[:300]), 'trace': traceback.format_exc()[-1500:]})
+    return out
+
+
 def explore_universe(job):
     """worker: job = dict(family, nodes, edges, mode, name, deadline, opts)"""
     if job['family'] == 'H-ORDER':
         return explore_order(job)
+    if job['family'] in ('H-EVAL2', 'H-RESUME'):
+        return explore_chain(job)
     t0 = time.time()
     out = {'name': job['name'], 'family': job['family'], 'mode': job['mode'], 'nodes': job['nodes'], 'edges': job['edges']}
     try:
         uni = H.heval_universe(_MOD, [tuple(n) for n in job['nodes']], [tuple(e) for e in job['edges']], job['mode'],
-                               name=job['name'], stale=job.get('stale', ()))
+                               name=job['name'], stale=job.get('stale', ()), inputs=job.get('inputs'))
         mons = make_monitors(job['family'])
         ex = X.Explorer(uni, mons, max_states=job.get('max_states', 400000))
         ex.run(deadline=job.get('deadline'))
@@ -124,7 +153,57 @@ CURATED4 = [
 ]
 
 
+HIST_CASES = [
+    # (nodes, edges, stale keys)
+    ([('A', 'Output'), ('B', 'Output')], [('B', 'A')], ['Z', 'Z!!!', 'Z!!!B', 'A!!!Z']),
+    ([('A', 'Ephemeral'), ('B', 'Output')], [('B', 'A')], ['Z', 'Z!!!', 'Z!!!B', 'A!!!Z']),
+    ([('A', 'Output'), ('B', 'Output')], [], ['A!!!B', 'B!!!A']),
+    ([('A', 'Always'), ('B', 'Ephemeral'), ('C', 'Output')], [('C', 'B')], ['A!!!B', 'A!!!C', 'Z!!!C']),
+    ([('a:::b:::c', 'Output'), ('D', 'Output')], [('D', 'a:::b:::c')], ['a:::b', 'a:::b!!!', 'a:::b!!!D', 'X!!!a:::b']),
+    ([('a:::b:::c', 'Ephemeral'), ('D', 'Output')], [('D', 'a:::b:::c')], ['a:::b', 'a:::b!!!', 'a:::b!!!D']),
+    ([('a', 'Output'), ('D', 'Output')], [('D', 'a')], ['a:::b', 'a:::b!!!', 'a:::b!!!D']),
+    ([('a:::b', 'Output'), ('D', 'Output')], [('D', 'a:::b')], ['a', 'a!!!', 'a!!!D']),
+    ([('a:::b', 'Output'), ('D', 'Always')], [('D', 'a:::b')], ['a', 'a!!!', 'a!!!D', 'x:::y', 'x:::y!!!', 'x:::y!!!D']),
+    ([('a:::b', 'Output')], [], ['b:::c', 'b:::c!!!', 'x:::y', 'x:::y!!!']),
+    ([('a:::b', 'Output'), ('c', 'Output')], [], ['a:::b:::c', 'a:::b:::c!!!', 'b', 'b!!!', 'b!!!c']),
+]
+
+
+PROD_CASES = [
+    ([('a:::b:::c', 'Output'), ('D', 'Output')], [('D', 'a:::b:::c')], ['a:::b', 'a:::b!!!', 'a:::b!!!D'], {'D': 'a', 'a:::b:::c': ''}),
+    ([('a', 'Output'), ('D', 'Output')], [('D', 'a')], ['a:::b', 'a:::b!!!', 'a:::b!!!D'], {'D': 'a', 'a': ''}),
+    ([('a:::b', 'Ephemeral'), ('D', 'Output')], [('D', 'a:::b')], ['a', 'a!!!', 'a!!!D'], {'D': 'a', 'a:::b': ''}),
+    ([('a:::b', 'Output'), ('c', 'Always'), ('D', 'Output')], [('D', 'a:::b'), ('D', 'c')], ['a', 'a!!!', 'a!!!D'], {'D': 'a\nc', 'a:::b': '', 'c': ''}),
+]
+
+
 def universes(family, tier, seed):
+    if family == 'H-HIST':
+        jobs = []
+        for nodes, edges, stale in HIST_CASES:
+            for mode in (['ident', 'rel'] if tier == 'thorough' else ['ident']):
+                jobs.append({'family': 'H-HIST', 'nodes': nodes, 'edges': edges, 'mode': mode, 'stale': stale})
+        # production convention: input names are the consumed *output* names, so a multi-output upstream that gains
+        # or loses an unrelated output leaves its consumers' input-name lists unchanged
+        for nodes, edges, stale, inputs in PROD_CASES:
+            jobs.append({'family': 'H-HIST', 'nodes': nodes, 'edges': edges, 'mode': 'prod', 'stale': stale, 'inputs': inputs})
+        for i, j in enumerate(jobs):
+            j['name'] = 'h%d_%s_%s' % (i, j['mode'], '+'.join(n for n, _ in j['nodes']))
+        return jobs
+    if family in ('H-EVAL2', 'H-RESUME'):
+        jobs = []
+        for n in (1, 2, 3):
+            for nodes, edges in H.all_instances(n):
+                modes = ['ident', 'rel'] if (tier == 'thorough' or family == 'H-EVAL2') else ['ident']
+                for mode in modes:
+                    jobs.append({'family': family, 'nodes': nodes, 'edges': edges, 'mode': mode})
+        if family == 'H-EVAL2':
+            for nodes, edges in CURATED4:
+                jobs.append({'family': family, 'nodes': nodes, 'edges': edges, 'mode': 'ident'})
+        for i, j in enumerate(jobs):
+            j['name'] = '%s%d_%s_%s' % (family[2:].lower(), i, j['mode'], ''.join(k[0] for _, k in j['nodes']) + '_' + ''.join('%s%s' % (u, d) for d, u in j['edges']))
+        jobs.sort(key=lambda j: -len(j['nodes']) * 10 - len(j['edges']))
+        return jobs
     if family == 'H-ORDER':
         jobs = []
         for n in (1, 2, 3):
